@@ -36,4 +36,7 @@ SUBS.append(Sub("histories-other-zone", run, kind="machine", machine=machine, bu
                      "also those in the hour that is repeated when summer time ends"))
 SUBS.append(Sub("equal-size-scripts-other-zone", run, kind="enum", enumerate=lambda tier: container.scripted_cases(), shards=(8, 16), tz=container.OTHER_ZONE,
                 rule="the enumerated scripts again in that zone (the blocks' dates lie in both passes through the repeated hour)", nontrivial_required=False))
+SUBS.append(Sub("scripts-with-a-stepping-clock", run, kind="enum", enumerate=lambda tier: container.stepping_clock_cases(), shards=(8, 16),
+                rule="every third enumerated script with datetime.now() - as the library sees it - one second later at every call: a time stamp obtained twice (once for the "
+                     "table in memory, once for the bytes on disk) is not the same time stamp", nontrivial_required=False))
 TIME_BUDGET = {"quick": 150, "thorough": 1500}
